@@ -6,15 +6,73 @@ qualified with the traits parameter (`traits_type::x` / `Traits::x` -> etl::deta
 of a record (constructor overloads of that arity).
 """
 from .. import astx
+from . import slots as SL
 
 TRAITS_QUALS = ("traits_type::", "Traits::")
 TRAITS_RECORD = "etl::detail::char_traits_base"
 
 
+def _kinds_env(f):
+    env = dict((p["n"], SL.kind_of(p["ty"])) for p in f["params"] if p.get("n") and not p.get("pack"))
+    for st in astx.walk_stmts(f.get("body")):
+        if st.get("k") == "decl":
+            for v in st["vars"]:
+                if "other" in v:
+                    continue
+                ty = v.get("ty") or ""
+                k = SL.kind_of(ty) if ty and "auto" not in ty else None
+                if (k is None or k == "c") and v.get("init") is not None:
+                    k = _arg_kind(v["init"], env, f) or k
+                env[v["n"]] = k
+    return env
+
+
+def _arg_kind(e, env, f):
+    e0 = astx.strip_casts(e)
+    if e0 is None:
+        return None
+    if e0.get("k") == "un" and e0.get("op") == "*" and astx.strip_casts(e0["e"]) is not None and astx.strip_casts(e0["e"]).get("k") == "this":
+        return "s"
+    if e0.get("k") == "this":
+        return "p"
+    if e0.get("k") in ("construct", "cast") and any(t in (e0.get("ty") or "") for t in ("string_view", "inplace_string", "StringView")):
+        return "s"
+    if e0.get("k") == "initlist":
+        return "s"          # braced (pointer, count) / (first, last): a view or string temporary
+    if e0.get("k") == "call" and astx.callee(e0)[0] in ("substr",):
+        return "s"
+    if e0.get("k") == "call" and astx.callee(e0)[0] in ("length", "strlen"):
+        return "n"
+    return SL.arg_kind(e, env, f)
+
+
+def _fits(call_args, kenv, f):
+    aks = [_arg_kind(a, kenv, f) for a in call_args]
+
+    def pred(g):
+        ps = g["params"]
+        if any(p.get("pack") for p in ps):
+            return True
+        if len(ps) < len(aks) or len([p for p in ps if "def" not in p]) > len(aks):
+            return False
+        for ak, p in zip(aks, ps):
+            gk = SL.kind_of(p["ty"])
+            if ak is None or ak == gk:
+                continue
+            if ak == "p" and gk == "it":
+                continue
+            if ak in ("c", "n") and gk in ("c", "n"):
+                continue        # characters and counts are both scalars: not told apart
+            return False
+        return True
+    return pred
+
+
 def edges_of(db, f):
-    """[(callee qualified name, call node)]"""
+    """[(callee qualified name, call node, overload predicate)]"""
     out = []
     rec = f.get("record")
+    kenv = _kinds_env(f)
     for x in astx.all_exprs(f, into_lambdas=True):
         k = x.get("k")
         if k == "call":
@@ -22,13 +80,14 @@ def edges_of(db, f):
             qual = fn.get("qual") or ""
             n = fn.get("n")
             if qual in TRAITS_QUALS and n:
-                out.append((TRAITS_RECORD + "::" + n, x))
+                out.append((TRAITS_RECORD + "::" + n, x, lambda g: True))
                 continue
+            pred = _fits(x["a"], kenv, f)
             if fn.get("q"):
-                out.append((fn["q"], x))
+                out.append((fn["q"], x, lambda g: True))
                 continue
             for c in sorted(set(fn.get("cands") or [])):
-                out.append((c, x))
+                out.append((c, x, pred))
             if fn.get("k") == "mem" and fn.get("dep") and n and rec:
                 b = astx.strip_casts(fn.get("b"))
                 own = astx.is_this(b)
@@ -38,7 +97,7 @@ def edges_of(db, f):
                 if own:
                     for rq in db.lineage(rec):
                         if db.by_q.get(rq + "::" + n):
-                            out.append((rq + "::" + n, x))
+                            out.append((rq + "::" + n, x, pred))
         elif k in ("construct",) and x.get("ty"):
             ty = x["ty"]
             args = x.get("a", [])
@@ -49,9 +108,10 @@ def edges_of(db, f):
                 if "<" in base:
                     continue
                 if base and (ty == base or ty.startswith(base + "<") or ty.endswith("::" + base) or ("::" + base + "<") in ty):
+                    pc = _fits(args, kenv, f)
                     for c in db.by_q.get(rq + "::<ctor>", []):
-                        if len(c["params"]) == len(args):
-                            out.append((rq + "::<ctor>#%d" % len(args), x))
+                        if len(c["params"]) == len(args) and pc(c):
+                            out.append((rq + "::<ctor>#%d" % len(args), x, pc))
                             break
     return out
 
@@ -65,7 +125,7 @@ def reach(db, start, is_sink, stop=lambda q: False, max_depth=8):
     while frontier and depth < max_depth:
         nxt = []
         for f, path in frontier:
-            for q, node in edges_of(db, f):
+            for q, node, pred in edges_of(db, f):
                 arity = None
                 q0 = q
                 if "#" in q:
@@ -79,6 +139,11 @@ def reach(db, start, is_sink, stop=lambda q: False, max_depth=8):
                 for g in db.by_q.get(q0, []):
                     if arity is not None and len(g["params"]) != arity:
                         continue
+                    try:
+                        if not pred(g):
+                            continue
+                    except Exception:
+                        pass
                     if g.get("body") is None and not g.get("inits"):
                         continue
                     key = id(g)
